@@ -122,24 +122,24 @@ def need(run, rule, ck, kind, what):
     return evs[0]
 
 
-def c01_gate(run, model):
+def c01_gate(run, model, rule="C01.gate"):
     for role, ck in checkers(model).items():
         run.saw(ck.flow)
-        pre = need(run, "C01.gate", ck, "PRE", "call evaluating the preconditions")
+        pre = need(run, rule, ck, "PRE", "call evaluating the preconditions")
         if pre is None:
             continue
         if not ck.checked_bodies:
-            run.violation("C01.gate", ck.fi.qual, "no call of the decorated function on the checked branch", ck.fi.loc())
+            run.violation(rule, ck.fi.qual, "no call of the decorated function on the checked branch", ck.fi.loc())
             continue
         later = ck.ids(ck.checked_bodies) | ck.ids(ck.by_kind.get("SNAP", [])) | ck.ids(ck.by_kind.get("POST", []))
         # every checked BODY / SNAP / POST is dominated by PRE
         nd = [i for i in later if pre["node"].id not in ck.dom[i]]
         if nd:
             n = [x for x in ck.cfg.nodes if x.id == nd[0]][0]
-            run.violation("C01.gate", ck.fi.qual, "a path reaches `%s` without evaluating the preconditions first" % first_line(n.stmt), ck.loc(n), None, first_line(n.stmt))
+            run.violation(rule, ck.fi.qual, "a path reaches `%s` without evaluating the preconditions first" % first_line(n.stmt), ck.loc(n), None, first_line(n.stmt))
             continue
         ok, detail, node = ck.gate(pre, later)
-        run.check(ok, "C01.gate", ck.fi.qual, detail, detail, ck.loc(node), None, first_line(node.stmt))
+        run.check(ok, rule, ck.fi.qual, detail, detail, ck.loc(node), None, first_line(node.stmt))
 
 
 def c01_read_live(run, model, rule="C01.read-live", kinds=("PRE",)):
@@ -161,15 +161,15 @@ def c01_read_live(run, model, rule="C01.read-live", kinds=("PRE",)):
                 )
 
 
-def c02_gate(run, model):
+def c02_gate(run, model, rule="C02.gate"):
     for role, ck in checkers(model).items():
         run.saw(ck.flow)
-        post = need(run, "C02.gate", ck, "POST", "call evaluating the postconditions")
+        post = need(run, rule, ck, "POST", "call evaluating the postconditions")
         if post is None or not ck.checked_bodies:
             continue
         body = ck.checked_bodies[0]
         if len(ck.checked_bodies) != 1:
-            run.violation("C02.gate", ck.fi.qual, "expected one call of the decorated function on the checked branch, found %d" % len(ck.checked_bodies), ck.fi.loc())
+            run.violation(rule, ck.fi.qual, "expected one call of the decorated function on the checked branch, found %d" % len(ck.checked_bodies), ck.fi.loc())
             continue
         pl = post["list_term"]
         pl_e = ck.wr.summ.expand(pl)
@@ -178,19 +178,19 @@ def c02_gate(run, model):
         atoms_t = [a for (a, p) in _all_facts(ck) if p and ck.wr.summ.expand(a) == pl_e]
         nec = any(ck.gg.necessary(starts, [post["node"].id], (a, True)) for a in atoms_t)
         if not nec:
-            run.violation("C02.gate", ck.fi.qual, "the postconditions are evaluated without testing that the live list is non-empty (result key would be bound although no postcondition exists)", ck.loc(post["node"]), None, first_line(post["node"].stmt))
+            run.violation(rule, ck.fi.qual, "the postconditions are evaluated without testing that the live list is non-empty (result key would be bound although no postcondition exists)", ck.loc(post["node"]), None, first_line(post["node"].stmt))
             continue
         # (2) nothing but that guard decides whether POST runs: with the list truthy every normal path from BODY reaches POST before returning
         req = [(a, True) for a in atoms_t]
         suff = ck.gg.sufficient(starts, [post["node"].id], [ck.cfg.exit_return.id], req)
         if not suff:
-            run.violation("C02.gate", ck.fi.qual, "a normal return is reachable after the body without evaluating the postconditions although the list is non-empty (an extra guard or early return)", ck.loc(post["node"]), None, first_line(post["node"].stmt))
+            run.violation(rule, ck.fi.qual, "a normal return is reachable after the body without evaluating the postconditions although the list is non-empty (an extra guard or early return)", ck.loc(post["node"]), None, first_line(post["node"].stmt))
             continue
         # (3) the result of POST gates the return
         ok, detail, node = ck.gate(post, [ck.cfg.exit_return.id])
         # gate() checks that exit_return is not reachable on the fail side and that the guarded ids need the pass edge
         if not ok:
-            run.violation("C02.gate", ck.fi.qual, detail, ck.loc(node), None, first_line(node.stmt))
+            run.violation(rule, ck.fi.qual, detail, ck.loc(node), None, first_line(node.stmt))
             continue
         # (4) "result" is bound to the BODY value in the mapping handed to POST, before POST
         bt = ck.result_term(body)
@@ -202,15 +202,15 @@ def c02_gate(run, model):
                         bound = (n, ck.flow.term(tg.value, n), ck.flow.term(n.ast.value, n))
         margs = [t for _, t in call_arg_terms(ck.flow, post["node"], post["call"])]
         if bound is None:
-            run.violation("C02.gate", ck.fi.qual, "the key 'result' is never bound before the postconditions are evaluated", ck.loc(post["node"]), None, first_line(post["node"].stmt))
+            run.violation(rule, ck.fi.qual, "the key 'result' is never bound before the postconditions are evaluated", ck.loc(post["node"]), None, first_line(post["node"].stmt))
         elif bound[2] != bt:
-            run.violation("C02.gate", ck.fi.qual, "'result' is bound to %s, not to the value the body returned" % show(bound[2]), ck.loc(bound[0]), None, first_line(bound[0].stmt))
+            run.violation(rule, ck.fi.qual, "'result' is bound to %s, not to the value the body returned" % show(bound[2]), ck.loc(bound[0]), None, first_line(bound[0].stmt))
         elif bound[1] not in margs or bound[0].id not in ck.dom[post["node"].id]:
-            run.violation("C02.gate", ck.fi.qual, "the mapping in which 'result' is bound is not the one handed to the postcondition evaluation (or is bound after it)", ck.loc(bound[0]), None, first_line(bound[0].stmt))
+            run.violation(rule, ck.fi.qual, "the mapping in which 'result' is bound is not the one handed to the postcondition evaluation (or is bound after it)", ck.loc(bound[0]), None, first_line(bound[0].stmt))
         else:
             # the binding itself must be guarded by the postconditions (C02.result-only-with-post)
             nec2 = any(ck.gg.necessary(starts, [bound[0].id], (a, True)) for a in atoms_t)
-            run.check(nec2, "C02.gate", ck.fi.qual, "POST guarded exactly by the live list; its result gates the return; 'result' bound to the BODY value in the same mapping", "'result' is written into the mapping even when the function has no postconditions", ck.loc(bound[0]), None, first_line(bound[0].stmt))
+            run.check(nec2, rule, ck.fi.qual, "POST guarded exactly by the live list; its result gates the return; 'result' bound to the BODY value in the same mapping", "'result' is written into the mapping even when the function has no postconditions", ck.loc(bound[0]), None, first_line(bound[0].stmt))
 
 
 def _all_facts(ck):
@@ -220,7 +220,7 @@ def _all_facts(ck):
     return out
 
 
-def c02_result_identity(run, model):
+def c02_result_identity(run, model, rule="C02.result-identity", rule_fwd="C14.forward"):
     """Every return of every wrapper returns the value of its BODY call (modulo await); BODY gets the own args."""
     regs = marker.regions(model)
     for role, res in regs.items():
@@ -232,20 +232,20 @@ def c02_result_identity(run, model):
             t = flow.term(ev["call"], ev["node"])
             body_terms.add(("await", t) if ev.get("awaited") else t)
             if res.fi.is_async and not ev.get("awaited"):
-                run.violation("C02.result-identity", res.fi.qual, "the coroutine returned by the decorated async function is not awaited", res.fi.loc(ev["node"]), None, first_line(ev["node"].stmt))
+                run.violation(rule, res.fi.qual, "the coroutine returned by the decorated async function is not awaited", res.fi.loc(ev["node"]), None, first_line(ev["node"].stmt))
         rets = [n for n in flow.cfg.nodes if n.kind == "return"]
         if not rets:
-            run.violation("C02.result-identity", res.fi.qual, "the wrapper has no return statement (the result of the body is lost)", res.fi.loc())
+            run.violation(rule, res.fi.qual, "the wrapper has no return statement (the result of the body is lost)", res.fi.loc())
         # falling off the end returns None instead of the result
         for k, p in flow.cfg.exit_return.pred:
             if p.kind != "return" and not p.fin:
-                run.violation("C02.result-identity", res.fi.qual, "a path falls off the end of the wrapper (returns None instead of the body's result)", res.fi.loc(p), None, first_line(p.stmt) if p.stmt is not None else None)
+                run.violation(rule, res.fi.qual, "a path falls off the end of the wrapper (returns None instead of the body's result)", res.fi.loc(p), None, first_line(p.stmt) if p.stmt is not None else None)
         for n in rets:
             t = flow.term(n.ast, n) if n.ast is not None else ("const", "None")
             ok = t in body_terms
             run.check(
                 ok,
-                "C02.result-identity",
+                rule,
                 "%s:return@%s" % (res.fi.qual, _ret_ordinal(flow, n)),
                 "returns the very value produced by the call of the decorated function",
                 "returns %s, which is not the value produced by the call of the decorated function (copy, conversion or other value)" % show(t),
@@ -256,7 +256,7 @@ def c02_result_identity(run, model):
         for ev in bodies:
             run.check(
                 ev.get("own_args"),
-                "C14.forward",
+                rule_fwd,
                 "%s:body@%s" % (res.fi.qual, _ev_ordinal(bodies, ev)),
                 "the decorated function receives exactly the wrapper's own *args, **kwargs",
                 "the decorated function is not called with the wrapper's own *args/**kwargs objects: %s" % first_line(ev["call"]),
@@ -275,7 +275,7 @@ def _ev_ordinal(evs, ev):
     return sorted(evs, key=lambda e: e["line"]).index(ev)
 
 
-def c02_exc_transparent(run, model):
+def c02_exc_transparent(run, model, rule="C02.exc-transparent"):
     regs = marker.regions(model)
     for role, res in regs.items():
         flow = res.wr.flow
@@ -309,9 +309,9 @@ def c02_exc_transparent(run, model):
                             if flow.cfg.exit_return.id in seen:
                                 bad = bad or (n.stmt, "a normal return is reachable after the body raised (the exception is swallowed)")
                 if bad:
-                    run.violation("C02.exc-transparent", res.fi.qual, bad[1], res.fi.loc(bad[0]), None, first_line(bad[0]))
+                    run.violation(rule, res.fi.qual, bad[1], res.fi.loc(bad[0]), None, first_line(bad[0]))
                 else:
-                    run.ok("C02.exc-transparent", "%s:body@%s" % (res.fi.qual, n.lineno if False else _ev_ordinal([e for es in events.values() for e in es if e["kind"] == "BODY"], ev)), "exception edge of BODY leads to the exceptional exit through marker give-backs only", res.fi.loc(n))
+                    run.ok(rule, "%s:body@%s" % (res.fi.qual, n.lineno if False else _ev_ordinal([e for es in events.values() for e in es if e["kind"] == "BODY"], ev)), "exception edge of BODY leads to the exceptional exit through marker give-backs only", res.fi.loc(n))
 
 
 def _handler_only_reraises(h):
@@ -325,10 +325,10 @@ def _handler_only_reraises(h):
     return isinstance(r.exc, ast.Name) and r.exc.id == h.name and r.cause is None
 
 
-def c08_place(run, model):
+def c08_place(run, model, rule="C08.place"):
     for role, ck in checkers(model).items():
         run.saw(ck.flow)
-        snap = need(run, "C08.place", ck, "SNAP", "call capturing the snapshots")
+        snap = need(run, rule, ck, "SNAP", "call capturing the snapshots")
         pre = ck.one("PRE")
         if snap is None or pre is None or len(ck.checked_bodies) != 1:
             continue
@@ -336,18 +336,18 @@ def c08_place(run, model):
         sn = snap["node"]
         # dominated by PRE, before BODY, never after BODY
         if pre["node"].id not in ck.dom[sn.id]:
-            run.violation("C08.place", ck.fi.qual, "the snapshots can be captured without the preconditions having been evaluated", ck.loc(sn), None, first_line(sn.stmt))
+            run.violation(rule, ck.fi.qual, "the snapshots can be captured without the preconditions having been evaluated", ck.loc(sn), None, first_line(sn.stmt))
             continue
         after_body = ck.gg.reach(normal_succ(body["node"]))
         if sn.id in after_body:
-            run.violation("C08.place", ck.fi.qual, "the snapshots are captured after the body ran", ck.loc(sn), None, first_line(sn.stmt))
+            run.violation(rule, ck.fi.qual, "the snapshots are captured after the body ran", ck.loc(sn), None, first_line(sn.stmt))
             continue
         after_snap = ck.gg.reach(normal_succ(sn))
         if body["node"].id not in after_snap:
-            run.violation("C08.place", ck.fi.qual, "the body does not follow the capture", ck.loc(sn), None, first_line(sn.stmt))
+            run.violation(rule, ck.fi.qual, "the body does not follow the capture", ck.loc(sn), None, first_line(sn.stmt))
             continue
         if pre["node"].id in after_snap:
-            run.violation("C08.place", ck.fi.qual, "preconditions are evaluated after the capture", ck.loc(sn), None, first_line(sn.stmt))
+            run.violation(rule, ck.fi.qual, "preconditions are evaluated after the capture", ck.loc(sn), None, first_line(sn.stmt))
             continue
         # guard: exactly (postconditions truthy AND snapshots truthy), both live lists
         starts = normal_succ(pre["node"])
@@ -360,7 +360,7 @@ def c08_place(run, model):
         nec_post = any(ck.gg.necessary(starts, [sn.id], (a, True)) for a in post_atoms)
         nec_snap = any(ck.gg.necessary(starts, [sn.id], (a, True)) for a in snap_atoms)
         if not nec_post:
-            run.violation("C08.place", ck.fi.qual, "the capture is not guarded by the presence of postconditions (snapshots would be captured for a function without postconditions)", ck.loc(sn), None, first_line(sn.stmt))
+            run.violation(rule, ck.fi.qual, "the capture is not guarded by the presence of postconditions (snapshots would be captured for a function without postconditions)", ck.loc(sn), None, first_line(sn.stmt))
             continue
         if not nec_snap and False:
             pass
@@ -373,7 +373,7 @@ def c08_place(run, model):
         suff = ck.gg.sufficient(starts, [sn.id], [body["node"].id], req)
         if not suff:
             run.violation(
-                "C08.place",
+                rule,
                 ck.fi.qual,
                 "with postconditions and snapshots present and the preconditions satisfied, the body can still be reached without capturing (the capture depends on an additional condition)",
                 ck.loc(sn),
@@ -399,17 +399,17 @@ def c08_place(run, model):
                         if isinstance(tg, ast.Subscript) and ck.flow.term(tg.slice, n) == ("const", "'OLD'") and ck.flow.term(n.ast.value, n) == val:
                             stored = ck.flow.term(tg.value, n)
         if stored is None or stored not in margs:
-            run.violation("C08.place", ck.fi.qual, "the captured values are not bound to 'OLD' in the mapping the postconditions (and error factories) receive", ck.loc(sn), None, first_line(sn.stmt))
+            run.violation(rule, ck.fi.qual, "the captured values are not bound to 'OLD' in the mapping the postconditions (and error factories) receive", ck.loc(sn), None, first_line(sn.stmt))
             continue
-        run.ok("C08.place", ck.fi.qual, "capture dominated by the precondition gate, guarded exactly by live postconditions and snapshots, precedes the body, bound to 'OLD' in the POST mapping", ck.loc(sn))
+        run.ok(rule, ck.fi.qual, "capture dominated by the precondition gate, guarded exactly by live postconditions and snapshots, precedes the body, bound to 'OLD' in the POST mapping", ck.loc(sn))
 
 
-def c19_reserved_call(run, model):
+def c19_reserved_call(run, model, rule="C19.reserved-call"):
     for role, ck in checkers(model).items():
         run.saw(ck.flow)
         ev = ck.kwargs_validator
         if ev is None:
-            run.violation("C19.reserved-call", ck.fi.qual, "the wrapper does not validate its keyword arguments for the reserved names", ck.fi.loc())
+            run.violation(rule, ck.fi.qual, "the wrapper does not validate its keyword arguments for the reserved names", ck.fi.loc())
             continue
         # first event of the wrapper: nothing else (marker, resolver, contract, body) before it
         others = set()
@@ -421,43 +421,43 @@ def c19_reserved_call(run, model):
         before = [i for i in before if i != ev["node"].id]
         if before:
             n = [x for x in ck.cfg.nodes if x.id == before[0]][0]
-            run.violation("C19.reserved-call", ck.fi.qual, "`%s` can run before (or without) the validation of the reserved keyword names" % first_line(n.stmt), ck.loc(n), None, first_line(n.stmt))
+            run.violation(rule, ck.fi.qual, "`%s` can run before (or without) the validation of the reserved keyword names" % first_line(n.stmt), ck.loc(n), None, first_line(n.stmt))
             continue
         ok, detail, node = ck.gate(ev, others - {ev["node"].id})
-        run.check(ok, "C19.reserved-call", ck.fi.qual, "first node of the wrapper; " + detail, detail, ck.loc(node), None, first_line(node.stmt))
+        run.check(ok, rule, ck.fi.qual, "first node of the wrapper; " + detail, detail, ck.loc(node), None, first_line(node.stmt))
 
 
-def c19_result_old(run, model):
+def c19_result_old(run, model, rule="C19.result-old"):
     for role, ck in checkers(model).items():
         run.saw(ck.flow)
         ev = ck.resolved_validator
         pre = ck.one("PRE")
         if ev is None:
-            run.violation("C19.result-old", ck.fi.qual, "the resolved arguments are not validated against the reserved names 'result'/'OLD' with the live postconditions", ck.fi.loc())
+            run.violation(rule, ck.fi.qual, "the resolved arguments are not validated against the reserved names 'result'/'OLD' with the live postconditions", ck.fi.loc())
             continue
         later = ck.ids(ck.checked_bodies) | ck.ids(ck.by_kind.get("SNAP", [])) | ck.ids(ck.by_kind.get("POST", [])) | (ck.ids([pre]) if pre else set())
         nd = [i for i in later if ev["node"].id not in ck.dom[i]]
         if nd:
             n = [x for x in ck.cfg.nodes if x.id == nd[0]][0]
-            run.violation("C19.result-old", ck.fi.qual, "`%s` is reachable without the validation of 'result'/'OLD'" % first_line(n.stmt), ck.loc(n), None, first_line(n.stmt))
+            run.violation(rule, ck.fi.qual, "`%s` is reachable without the validation of 'result'/'OLD'" % first_line(n.stmt), ck.loc(n), None, first_line(n.stmt))
             continue
         # it must receive the resolved mapping (not the raw kwargs) and the live postconditions
         args = [t for _, t in call_arg_terms(ck.flow, ev["node"], ev["call"])]
         if ck.mapping not in args:
-            run.violation("C19.result-old", ck.fi.qual, "the validation does not receive the resolved mapping of the call", ck.loc(ev["node"]), None, first_line(ev["node"].stmt))
+            run.violation(rule, ck.fi.qual, "the validation does not receive the resolved mapping of the call", ck.loc(ev["node"]), None, first_line(ev["node"].stmt))
             continue
         ok, detail, node = ck.gate(ev, later)
-        run.check(ok, "C19.result-old", ck.fi.qual, "validated on the resolved mapping with the live postconditions before the preconditions; " + detail, detail, ck.loc(node), None, first_line(node.stmt))
+        run.check(ok, rule, ck.fi.qual, "validated on the resolved mapping with the live postconditions before the preconditions; " + detail, detail, ck.loc(node), None, first_line(node.stmt))
 
 
-def c16_phases(run, model):
+def c16_phases(run, model, rule="C16.phases"):
     """Order chain: kwargs validation < resolver < reserved-name validation < PRE < SNAP < BODY < POST."""
     for role, ck in checkers(model).items():
         run.saw(ck.flow)
         chain = []
         for name, ev in (("kwargs-validation", ck.kwargs_validator), ("resolver", ck.resolver), ("result/OLD-validation", ck.resolved_validator), ("PRE", ck.one("PRE")), ("SNAP", ck.one("SNAP")), ("BODY", ck.checked_bodies[0] if len(ck.checked_bodies) == 1 else None), ("POST", ck.one("POST"))):
             if ev is None:
-                run.violation("C16.phases", ck.fi.qual, "phase %s not found in the wrapper" % name, ck.fi.loc())
+                run.violation(rule, ck.fi.qual, "phase %s not found in the wrapper" % name, ck.fi.loc())
                 chain = None
                 break
             chain.append((name, ev))
@@ -476,24 +476,24 @@ def c16_phases(run, model):
                 bad = (n1, n2, b)
                 break
         if bad:
-            run.violation("C16.phases", ck.fi.qual, "phase %s does not precede phase %s on every path" % (bad[0], bad[1]), ck.loc(bad[2]), None, first_line(bad[2].stmt))
+            run.violation(rule, ck.fi.qual, "phase %s does not precede phase %s on every path" % (bad[0], bad[1]), ck.loc(bad[2]), None, first_line(bad[2].stmt))
         else:
-            run.ok("C16.phases", ck.fi.qual, "order " + " < ".join(n for n, _ in chain) + " holds on every path")
+            run.ok(rule, ck.fi.qual, "order " + " < ".join(n for n, _ in chain) + " holds on every path")
 
 
-def c05_select_mapping(run, model):
+def c05_select_mapping(run, model, rule="C05.identity"):
     """The mapping handed to PRE / SNAP / POST is the resolver's result for this call (same object)."""
     for role, ck in checkers(model).items():
         run.saw(ck.flow)
         if ck.resolver is None:
-            run.violation("C05.identity", ck.fi.qual, "the wrapper does not resolve the call's arguments from its own *args/**kwargs", ck.fi.loc())
+            run.violation(rule, ck.fi.qual, "the wrapper does not resolve the call's arguments from its own *args/**kwargs", ck.fi.loc())
             continue
         for kind in ("PRE", "SNAP", "POST"):
             for ev in ck.by_kind.get(kind, []):
                 args = [t for _, t in call_arg_terms(ck.flow, ev["node"], ev["call"])]
                 run.check(
                     ck.mapping in args,
-                    "C05.identity",
+                    rule,
                     "%s:%s-mapping" % (ck.fi.qual, kind),
                     "%s receives the mapping resolved from this call's own arguments" % kind,
                     "%s does not receive the mapping resolved from this call's arguments" % kind,
